@@ -10,7 +10,7 @@ from util import call, quiet
 from props.C06 import describe, rules
 
 REQUIRED_THEOREMS = ['Usid.C02.reject_atomic', 'Usid.C02.accept_valid', 'Usid.C02.accept_faithful']
-RULE = ('random calls of write_main_dataset: data as numpy / dask / empty shape + dtype, dimension lists whose product '
+RULE = ('[optional dtype= and compression= keyword arguments included; every eleventh case lazy data with an explicit element type] random calls of write_main_dataset: data as numpy / dask / empty shape + dtype, dimension lists whose product '
         'equals or differs from the data shape, slow_to_fast in {F,T}, custom prefixes (with "-"), reuse of ancillaries '
         'from the same or another file, wrong argument types, and prior group contents with clashing names of every '
         'kind (Position_*, Spectroscopic_*, the main name); after a rejection the corrected call is retried in the '
@@ -43,7 +43,13 @@ def generate(seed, tier):
                       'reuse_spec': rng.choice([None, None, None, 'same', 'other']),
                       'pos_prefix': rng.choice(['Position_', 'Position_', 'My-Pos', 'PosX_', 'Same_']),
                       'spec_prefix': rng.choice(['Spectroscopic_', 'Spectroscopic_', 'Spec-Y_', 'Same_']),
-                      'name': rng.choice(['MAIN', 'MAIN', ' MAIN ', 'MA-IN', 'Position_Values'])})
+                      'name': rng.choice(['MAIN', 'MAIN', ' MAIN ', 'MA-IN', 'Position_Values']),
+                      # optional h5py keyword arguments handed through to the dataset creation
+                      'kw_dtype': rng.choice([None, None, None, 'f4', 'f8']) if ds['dtype'] in ('f8', 'f4') else None,
+                      'kw_compression': rng.choice([None, None, None, 'gzip'])})
+        if i % 11 == 10:      # a valid call with lazy data and an element type narrower / wider than the data's
+            cases[-1].update({'err': 'none', 'data': 'dask', 'kw_dtype': rng.choice(['f4', 'f8'])})
+            cases[-1]['ds'] = dict(ds, dtype=rng.choice(['f8', 'f4']))
     return cases
 
 
@@ -115,6 +121,10 @@ def _call(inp, grp, other, a, data_arr):
     else:
         arr = data_arr.reshape(-1) if a['data_rank_bad'] else data_arr
         data = da.from_array(arr, chunks=arr.shape) if a['data'] == 'dask' else arr
+        if inp.get('kw_dtype') and not a['empty_no_dtype']:
+            kw['dtype'] = {'f4': np.float32, 'f8': np.float64}[inp['kw_dtype']]
+    if inp.get('kw_compression'):
+        kw['compression'] = inp['kw_compression']
     if a['empty_no_dtype'] and a['data'] != 'empty':
         data = tuple(a['shape'])
     quantity = 'Current' if a['quantity_ok'] else 5
